@@ -580,4 +580,5 @@ def prep(Hh, st):
             a[inds] = b
             return dict(outs={}, touched={st['a']}, qt={st['a']: qt_of(a)}, dense={st['a']: dense})
         return None, run
-    raise KeyError('unknown op ' + op)
+    from harness import c02_cover   # coverage-round operations
+    return c02_cover.prep(Hh, st)
